@@ -1,6 +1,49 @@
 """C08 - float text I/O is lossless and base/precision changes are faithfully rounded."""
+import os
+import sys
+
 import core
 from core import hx
+
+# The constants / formulas of float/src/convert.rs the models read (THRESHOLD_SMALL_EXP, the work precision of the
+# ln/exp route of convert_base, the f32 formula of with_base's precision, the precision of the context of
+# TryFrom<f32/f64>) are regenerated into coq/gen/ConvBaseGen.v when this plug-in is imported, i.e. before the proof
+# phase of every run.  Float/LargeExpAsis.v and Float/ConvBaseGenProof.v are stated over the regenerated definitions:
+# an edit of the source breaks a proof obligation (C08_gen_*).  Unparseable source is not an alarm: the last good
+# copy stays (marked STALE), the status is reported in the evidence, the correspondence run alone ties the model.
+sys.path.insert(0, os.path.join(core.ROOT, "tools"))
+try:
+    import translate_c08_r3
+    CONV_GEN_STATUS = translate_c08_r3.generate(core.REPO, os.path.join(core.COQ, "gen"))
+except Exception as _ex:  # the generator itself broke: same fallback as an unparseable source
+    CONV_GEN_STATUS = "unparsed generator-failed: %s" % str(_ex)[:200]
+
+# a run against a scratch checkout (VERIF_REPO) must not leave its formulas in the tree for other builds
+if os.path.realpath(core.REPO) != os.path.realpath("/repo"):
+    import atexit
+
+    def _restore_conv_gen():
+        try:
+            translate_c08_r3.generate("/repo", os.path.join(core.COQ, "gen"))
+        except Exception:
+            pass
+
+    atexit.register(_restore_conv_gen)
+
+
+def extra_phase(tier, seed, exes, oracle):
+    word = CONV_GEN_STATUS.split(" ", 1)[0]
+    return {
+        "evaluations": 0,
+        "hist": {"translator_c08:ConvBaseGen:" + word: 1},
+        "nontrivial": [],
+        "samples": [{"fragment": "coq/gen/ConvBaseGen.v (tools/translate_c08_r3.py from float/src/convert.rs)",
+                     "status": CONV_GEN_STATUS,
+                     "tied_by": "C08_gen_* (Float/ConvBaseGenProof.v) and the as-is model Float/LargeExpAsis.v" if word == "ok"
+                     else "correspondence run only (source not parsed; last good copy marked STALE)"}],
+        "failures": [],
+    }
+
 
 ID = "C08"
 READY = True
@@ -353,6 +396,39 @@ def gen_conv(rng, tier, b):
     return "%s %x %s %s %s %x" % (op, b, mode, hx(s), hx(e), p0)
 
 
+def gen_wb_prec(rng, tier):
+    """FBig::with_base's precision: source precisions at the places where NewB^n <= B^p is tight (p = ceil(n log NB / log B)
+    and its neighbours, for n up to 2^14, 2^17 thorough), small precisions, powers of two, the convergents of log NB / log B"""
+    import math
+    cls = rng.choice(["up", "down", "root", "other", "other", "other", "other"])
+    b, nb = rng.choice(PAIRS_BY_CLASS[cls])
+    ratio = math.log(nb) / math.log(b)
+    k = rng.below(10)
+    if k < 3:
+        p0 = rng.choice([0, 1, 1, 2, 3, 4, 5, 7, 10, 17, 24, 53, 64, 100, 113, 237])
+    elif k < 8:
+        n = rng.range(1, (1 << 17) if tier == "thorough" else (1 << 14))
+        if rng.chance(1, 3):
+            n = rng.choice([1 << rng.range(1, 13), (1 << rng.range(1, 13)) + 1, (1 << rng.range(2, 13)) - 1])
+        p0 = max(1, int(math.ceil(n * ratio)) + rng.choice([-1, 0, 0, 0, 1]))
+    else:
+        # continued fraction convergents of log NB / log B: p0 / n within 1 / n^2 of the ratio
+        h0, h1, k0, k1, x = 0, 1, 1, 0, ratio
+        cands = []
+        for _ in range(12):
+            a = int(math.floor(x))
+            h0, h1 = h1, a * h1 + h0
+            k0, k1 = k1, a * k1 + k0
+            if 0 < h1 < (200000 if tier == "thorough" else 30000):
+                cands.append(h1)
+            if x - a < 1e-12:
+                break
+            x = 1.0 / (x - a)
+        p0 = rng.choice(cands) + rng.choice([-1, 0, 0, 1]) if cands else 7
+        p0 = max(1, p0)
+    return "wb_prec %x %s %x %x" % (b, rng.choice(MODES), nb, p0)
+
+
 def gen_ieee(rng, tier):
     if rng.chance(1, 2):
         mw, ew, op = 23, 8, rng.choice(["from_f32", "from_f32", "from_f32_repr"])
@@ -382,6 +458,8 @@ def valid(text):
         if op in ("with_base", "with_base_prec"):
             b, s, p0 = int(t[1], 16), core.unhx(t[4]), int(t[6], 16)
             return (p0 == 0 or ndigits(s, b) <= p0) and int(t[3], 16) in CONV_PAIRS.get(b, [])
+        if op == "wb_prec":
+            return int(t[3], 16) in CONV_PAIRS.get(int(t[1], 16), []) and int(t[4], 16) < (1 << 20)
     except Exception:
         return False
     return True
@@ -398,8 +476,10 @@ def gen_cases(rng, tier, n):
             c = gen_print(rng, tier, b)
         elif k < 68:
             c = gen_misc(rng, tier, b)
-        elif k < 94:
+        elif k < 90:
             c = gen_conv(rng, tier, b)
+        elif k < 94:
+            c = gen_wb_prec(rng, tier)
         else:
             c = gen_ieee(rng, tier)
         if valid(c):
